@@ -139,6 +139,27 @@ def eval_expr(e, env: Env):
             if e.attr == "values":
                 return base
         raise AnalysisError(f"layout: unsupported attribute `{norm(e)}`")
+    if isinstance(e, ast.Compare) and len(e.ops) == 1:
+        l, r = eval_expr(e.left, env), eval_expr(e.comparators[0], env)
+        op = e.ops[0]
+        if isinstance(op, ast.In):
+            return l in r
+        if isinstance(op, ast.NotIn):
+            return l not in r
+        if isinstance(op, ast.Eq):
+            return l == r
+        if isinstance(op, ast.NotEq):
+            return l != r
+        if isinstance(op, (ast.Lt, ast.LtE, ast.Gt, ast.GtE)) and isinstance(l, (int, float)) and isinstance(r, (int, float)):
+            return {ast.Lt: l < r, ast.LtE: l <= r, ast.Gt: l > r, ast.GtE: l >= r}[type(op)]
+        raise AnalysisError(f"layout: unsupported comparison `{norm(e)}`")
+    if isinstance(e, ast.UnaryOp) and isinstance(e.op, ast.Not):
+        return not eval_expr(e.operand, env)
+    if isinstance(e, ast.BoolOp):
+        vals = [eval_expr(v, env) for v in e.values]
+        return all(vals) if isinstance(e.op, ast.And) else any(vals)
+    if isinstance(e, ast.IfExp):
+        return eval_expr(e.body, env) if eval_expr(e.test, env) else eval_expr(e.orelse, env)
     if isinstance(e, (ast.Tuple, ast.List)):
         out = []
         for x in e.elts:
